@@ -92,6 +92,8 @@ func (m *bmodel) adv(d time.Duration) {
 	}
 }
 
+var c01WindowSlack = verifkit.EnvInt("c01_window_slack", 0) == 1
+
 type machine struct {
 	t      *rapid.T
 	b      breaker.Breaker
@@ -138,7 +140,14 @@ func (mc *machine) call(entry int, pkgLevel bool, outcome int, dur time.Duration
 	mc.calls++
 	// ---- pre-state for the oracles (the decision is taken before the request runs)
 	justified := false
-	for _, k := range []int64{39, 40, 41} {
+	// (until session 5 the window was also tried one bucket shorter and longer; the model shares the
+	// virtual clock and the bucket grid with the breaker - law 4 asserts the sums bucket-exactly after
+	// every action - so the slack only hid staleness of up to one bucket, cf. seed C02j)
+	law1Windows := []int64{nBuckets}
+	if c01WindowSlack {
+		law1Windows = []int64{nBuckets - 1, nBuckets, nBuckets + 1}
+	}
+	for _, k := range law1Windows {
 		s, f, d := m.win(k)
 		if float64(f+d) > 5+0.1*float64(s) {
 			justified = true
